@@ -586,10 +586,14 @@ class sptensor:
             remdims = np.setdiff1d(np.arange(0, self.ndims), np.array([i_0, i_1]))
             return ttb.sptensor(shape=tuple(np.array(self.shape)[remdims]))
 
+        # Sum the diagonal as real numbers: integer, boolean or single precision
+        # storage must not wrap around or saturate in the sums
+        vals = as_float_if_needed(self.vals)
+
         # Easy case - returns a scalar
         if self.ndims == 2:
             tfidx = self.subs[:, 0] == self.subs[:, 1]  # find diagonal entries
-            return sum(self.vals[tfidx].transpose()[0])
+            return sum(vals[tfidx].transpose()[0])
 
         # Remaining dimensions after contract
         remdims = np.setdiff1d(np.arange(0, self.ndims), np.array([i_0, i_1])).astype(
@@ -605,11 +609,11 @@ class sptensor:
         # Let constructor sum entries
         if remdims.size == 1:
             y = ttb.sptensor.from_aggregator(
-                self.subs[indx, remdims][:, None], self.vals[indx], newsize
+                self.subs[indx, remdims][:, None], vals[indx], newsize
             )
         else:
             y = ttb.sptensor.from_aggregator(
-                self.subs[indx, :][:, remdims], self.vals[indx], newsize
+                self.subs[indx, :][:, remdims], vals[indx], newsize
             )
 
         # Check if result should be dense
